@@ -130,6 +130,55 @@ Fixpoint mp_loop (fuel : nat) (bd : list N) (rest : list N) (opened : bool)
   else mp_loop f bd r2 opened' acc
   end end end end.
 
+(* ---- Range::parse_multipart_body: the older reader with the fixed separator "--String_separator" (a public entry point; the
+   server's own parser is mp_loop above) ---- *)
+Definition SEPD : list N := [45; 45] ++ Rg_STRING_SEPARATOR.
+(* body lines after the first one: read until a line that starts with the separator; the end of the input before that is an error *)
+Fixpoint rmp_body (fuel : nat) (rest acc : list N) : option (list N * list N) :=
+  match fuel with O => None | S f =>
+  match rest with
+  | [] => None
+  | _ => let (line, rest') := split_line rest in
+         if starts_with line SEPD then Some (acc, rest') else rmp_body f rest' (acc ++ line)
+  end end.
+Fixpoint rmp_loop (fuel : nat) (rest : list N) (acc : list (N * N * list N * list N * list N)) : rpres (list (N * N * list N * list N * list N)) :=
+  match fuel with O => PErr | S f =>
+  let (l0, r0) := split_line rest in
+  if negb (utf8_valid l0) then PErr else
+  match l0 with [] => POk acc | _ =>                                   (* nothing left to read: the list so far *)
+  let step1 := if starts_with l0 SEPD then (let (l, r) := split_line r0 in if utf8_valid l then Some (l, r) else None) else Some (l0, r0) in
+  match step1 with None => PErr | Some (l1, r1) =>
+  let step2 := if starts_with l1 CT_NAME then
+                 match parse_resp_header l1 with
+                 | None => None
+                 | Some h => let (l, r) := split_line r1 in if utf8_valid l then Some (trim (hvalue h), l, r) else None
+                 end
+               else Some ([], l1, r1) in
+  match step2 with None => PErr | Some (ctype, l2, r2) =>
+  (* Content-Range, read with the unwrapping twin of the header splitter: a line without ": " has the empty value *)
+  let step3 := if starts_with l2 CR_NAME then
+                 let v := match split l2 COLON_SP with _ :: v :: _ => v | _ => [] end in
+                 match parse_cr_value (truncate_nl_cr v) with
+                 | None => None
+                 | Some cr =>
+                   let (l3, r3) := split_line r2 in
+                   if negb (utf8_valid l3) then None else if negb (beqs (trim l3) []) then None else
+                   let (l4, r4) := split_line r3 in
+                   if negb (utf8_valid l4) then None else Some (Some cr, l4, r4)
+                 end
+               else Some (None, l2, r2) in
+  match step3 with None => PErr | Some (cr, l5, r5) =>
+  match cr, ctype with
+  | Some (st, en, sz), _ :: _ =>
+    (* the body starts with the line just read; further lines are appended until one starts with the separator *)
+    match (if starts_with l5 SEPD then Some (l5, r5) else rmp_body (S (length r5)) r5 l5) with
+    | None => PErr
+    | Some (b, r6) => rmp_loop f r6 (acc ++ [(to_u64 st, to_u64 en, show_signed sz, pop2 b, ctype)])
+    end
+  | _, _ => rmp_loop f r5 acc
+  end end end end end end.
+Definition rmp_parse (input : list N) := rmp_loop (S (length input)) input [].
+
 Definition OCTET : list N := Mt_APPLICATION_OCTET_STREAM.
 Definition MULTIPART_BYTERANGES : list N := Rg_MULTIPART ++ [47] ++ Rg_BYTERANGES.
 Fixpoint resp_headers (fuel : nat) (rest : list N) (hs : list header) : rpres (list header * list N) :=
